@@ -55,6 +55,9 @@ prop('C16',
          {'name': 'C16_ClipSigned', 'types': [()]},
          {'name': 'C16_ClipUnsigned', 'types': [()]},
          {'name': 'C16_Scale', 'types': {'quick': ['int8', 'uint8', 'int32', 'uint64', 'int'], 'thorough': INTS}},
+         {'name': 'C16_ScaleHistory', 'types': {'quick': [('int8', 'int16'), ('int8', 'uint16'), ('int16', 'int64')],
+                                                'thorough': [('int8', 'int16'), ('int8', 'uint16'), ('int16', 'int64'), ('int32', 'uint64'), ('int8', 'int8'), ('uint8', 'int32'), ('int16', 'int32'), ('int32', 'int')]},
+          'covers': ['fits']},
      ],
      bounds='all depths b in 1..64 (symbolic 8-bit), all 2^64 values v and w (symbolic), all pairs 1<=l<=h<=64 (symbolic) for which 2^(h-l) fits T; no loops, nothing unrolled',
      outside=['depth 0 and depths above 64 (outside the property)'])
@@ -62,7 +65,9 @@ prop('C16',
 prop('C04',
      harnesses=[{'name': 'C04_AppendSample', 'types': {'quick': QUICK_T, 'thorough': ALL},
                  'params': {'quick': dict(SHAPE_Q, MaxCalls=5), 'thorough': dict(SHAPE_T, MaxCalls=8)},
-                 'covers': ['not-full', 'full']}],
+                 'covers': ['not-full', 'full']},
+                {'name': 'C04_AfterGrowth', 'types': {'quick': ['int8', 'int16', 'float64'], 'thorough': ALL},
+                 'params': {'quick': {'MaxC': 3}, 'thorough': {'MaxC': 7}}, 'covers': ['not-full', 'full']}],
      bounds={'quick': 'channels 1..3, capacity 0..3 frames, every window [s,e) of it (case split); up to 5 calls, at least 2 beyond capacity; all sample values and the witness position symbolic',
              'thorough': 'channels 1..4, capacity 0..4 frames, every window; up to 8 calls; all 13 element types'},
      outside=['more channels / frames than the bound', 'more calls than MaxCalls on one buffer'])
@@ -157,6 +162,8 @@ prop('C13', opts={'lazy_make': True},
                  'params': {'quick': {'MaxAllocC': 8, 'MaxAllocK': 4096}, 'thorough': {'MaxAllocC': 64, 'MaxAllocK': 65536}}, 'covers': ['nonempty']},
                 {'name': 'C13_Small', 'types': {'quick': ['int32', 'float64', 'NamedInt16'], 'thorough': ALL + NAMED}, 'covers': ['small'],
                  'opts': {'lazy_make': False, 'fallbacks': 24}},
+                {'name': 'C13_History', 'types': {'quick': ['int8', 'float32'], 'thorough': ALL + NAMED[:4]}, 'covers': ['grown-empty', 'pool-released', 'filled-twin'],
+                 'opts': {'lazy_make': False, 'fallbacks': 24, 'pool_mode': 'all'}},
                 {'name': 'C13_Length', 'types': {'quick': ['int8', 'float64'], 'thorough': QUICK_T},
                  'params': {'quick': {'MaxLemmaC': 3, 'MaxLemmaK': 8}, 'thorough': {'MaxLemmaC': 4, 'MaxLemmaK': 16}}}],
      bounds={'quick': 'channels 1..8 (case split), 0 <= L <= K <= 4096 symbolic, witness positions symbolic over the whole capacity; 5 built-in and 4 named element types; per-channel Length() (floating-point ceil) for C<=3, K<=8',
@@ -174,7 +181,7 @@ prop('C14',
      outside=['larger shapes'])
 
 prop('C15', opts={'abstract_fp': True},
-     harnesses=[{'name': 'C15_' + fn, 'types': {'quick': conv_pairs(fn, 1)[:1], 'thorough': conv_pairs(fn, 2)},
+     harnesses=[{'name': 'C15_' + fn, 'types': {'quick': conv_pairs(fn, 1), 'thorough': conv_pairs(fn, 2)},
                  'params': {'quick': {'MaxC15': 3, 'MaxK15': 1}, 'thorough': {'MaxC15': 4, 'MaxK15': 2}}} for fn in CONVS] +
      [{'name': 'C15_Append', 'types': {'quick': ['int8', 'float64'], 'thorough': QUICK_T}, 'params': {'quick': {'MaxC15': 3, 'MaxK15': 1}, 'thorough': {'MaxC15': 4, 'MaxK15': 2}}},
       {'name': 'C15_ReadStriped', 'types': {'quick': PAIRS_Q[:3], 'thorough': PAIRS_Q}, 'params': {'quick': {'MaxC15': 3, 'MaxK15': 1}, 'thorough': {'MaxC15': 4, 'MaxK15': 2}}},
@@ -189,7 +196,8 @@ prop('C20', opts={'abstract_fp': True},
                 {'name': 'C20_ChannelLength', 'types': [()], 'opts': {'abstract_fp': False}},
                 {'name': 'C20_ZeroCapacity', 'types': {'quick': ['int8', 'uint16', 'float64'], 'thorough': ALL}},
                 {'name': 'C20_Pool', 'types': {'quick': ['int8', 'float64'], 'thorough': ALL}},
-                {'name': 'C20_ZeroLengthIO', 'types': {'quick': ['int8', 'uint16', 'float64'], 'thorough': ALL}}] +
+                {'name': 'C20_ZeroLengthIO', 'types': {'quick': ['int8', 'uint16', 'float64'], 'thorough': ALL}},
+                {'name': 'C20_PooledZeroLength', 'types': {'quick': ['int8', 'float64'], 'thorough': ALL}, 'opts': {'abstract_fp': True, 'pool_mode': 'all'}}] +
      [{'name': 'C20_' + fn, 'types': {'quick': conv_pairs(fn, 1)[:1], 'thorough': conv_pairs(fn, 2)}} for fn in CONVS],
      bounds='zero channels with every requested length/capacity 0..3; zero capacity with 1..3 channels; zero-length windows at every frame of a 2-frame buffer; ChannelLength(n,0) for every int n (symbolic); all nine conversions in the four degenerate configurations',
      outside=['Alloc with Length > Capacity (make panics; outside Alloc contract)'])
@@ -264,7 +272,7 @@ prop('C19', opts={'threads': True, 'abstract_fp': True}, race_replay=True,
                  'params': {'quick': {'MaxC': 2, 'MaxK': 2, 'Readers': 2}, 'thorough': {'MaxC': 2, 'MaxK': 2, 'Readers': 3}}, 'covers': ['joined', '@par-joined']},
                 {'name': 'C19_Writers', 'types': {'quick': ['int8', 'float64'], 'thorough': QUICK_T},
                  'params': {'quick': {'MaxC': 2, 'MaxK': 2}, 'thorough': {'MaxC': 3, 'MaxK': 3}}, 'covers': ['joined', '@par-joined']}] +
-     [{'name': 'C19_Conv_' + fn, 'types': {'quick': conv_pairs(fn, 1)[:1], 'thorough': conv_pairs(fn, 2)},
+     [{'name': 'C19_Conv_' + fn, 'types': {'quick': big_pairs(fn)[:1], 'thorough': conv_pairs(fn, 2) + big_pairs(fn)},
        'params': {'quick': {'MaxC': 2, 'MaxK': 2}, 'thorough': {'MaxC': 2, 'MaxK': 2}}, 'covers': ['joined']} for fn in CONVS],
      bounds={'quick': 'conversion sources: 2 goroutines converting one shared window into their own destinations (all nine conversions); readers: 2 goroutines, each running every read-only entry point (getters, Sample, Read, ReadStriped, Slice, Channel view, BufferIndex) with arbitrary arguments on one shared window of a buffer with 1..2 channels, 1..2 frames; writers: frame ranges [0,a) [a,b) [b,K) for every a<=b<=K<=2, two writers (Write / WriteStriped / SetSample loops / channel-view SetSample) and one reader; all orders of the goroutines; every pair of logged accesses checked for an unordered conflict',
              'thorough': '3 readers; writers with 1..3 channels and 1..3 frames'},
@@ -307,7 +315,7 @@ prop('C08',
      outside=['NaN inputs (unspecified by the property)'])
 
 I2F = [('SignedAsFloat', 'Signed', INTS_S), ('UnsignedAsFloat', 'Unsigned', INTS_U)]
-I2F_Q = {'Signed': [('int8', 'float32'), ('int16', 'float64'), ('int32', 'float64'), ('int64', 'float64')],
+I2F_Q = {'Signed': [('int8', 'float32'), ('int16', 'float64'), ('int16', 'float32'), ('int32', 'float64'), ('int64', 'float64')],
          'Unsigned': [('uint8', 'float64'), ('uint16', 'float32'), ('uint32', 'float64'), ('uint64', 'float32')]}
 RT_ALL = {'Signed': [(a, 'float64') for a in ('int8', 'int16', 'int32')] + [(a, 'float32') for a in ('int8', 'int16')],
           'Unsigned': [(a, 'float64') for a in ('uint8', 'uint16', 'uint32')] + [(a, 'float32') for a in ('uint8', 'uint16')]}
@@ -324,8 +332,8 @@ prop('C09', opts={'mode': 'value'},
      outside=['round trips for 64-bit sources and for 32-bit sources through float32 (not promised by the property)'])
 
 RATES = [8000, 11025, 16000, 22050, 32000, 44100, 48000, 88200, 96000, 176400, 192000, 352800, 384000,
-         2822400, 5644800, 1, 7, 60, 1000, 1000000, 44100.5, 0.5, 999983, 48000.25]
-RATES_Q = [0, 5, 6, 14, 16, 19, 20]
+         2822400, 5644800, 1, 7, 60, 1000, 1000000, 44100.5, 0.5, 999983, 48000.25, 99999, 31999, 705600, 768000, 3]
+RATES_Q = [0, 5, 6, 14, 16, 19, 20, 22, 24]
 prop('C17', opts={'mode': 'value'},
      harnesses=[{'name': h, 'types': [()], 'params': {'quick': {'Rates': len(RATES)}, 'thorough': {'Rates': len(RATES)}},
                  'splits': {'quick': [{'rate': i} for i in RATES_Q], 'thorough': [{'rate': i} for i in range(len(RATES))]},
